@@ -268,6 +268,54 @@ pub fn call_message(buf: &[u8]) -> MsgCall {
     }
 }
 
+/// The same message through the other public route: the per-type `AisMessageType::parse` of the
+/// type the first six bits announce (the route the crate's own unit tests use). `None` for a type
+/// value without a message struct.
+pub fn call_message_direct(buf: &[u8]) -> Option<MsgCall> {
+    use ais::messages::*;
+    if buf.is_empty() {
+        return None;
+    }
+    let t = buf[0] >> 2;
+    macro_rules! via {
+        ($variant:ident, $ty:path) => {
+            guard(|| <$ty as AisMessageType>::parse(buf).ok().map(|m| {
+                let m = AisMessage::$variant(m);
+                (observe::message(&m), format!("{:?}", m))
+            }))
+        };
+    }
+    let r = match t {
+        1..=3 => via!(PositionReport, position_report::PositionReport),
+        4 => via!(BaseStationReport, base_station_report::BaseStationReport),
+        5 => via!(StaticAndVoyageRelatedData, static_and_voyage_related_data::StaticAndVoyageRelatedData),
+        6 => via!(BinaryAddressedMessage, binary_addressed::BinaryAddressedMessage),
+        7 => via!(BinaryAcknowledgeMessage, binary_acknowledge::BinaryAcknowledge),
+        8 => via!(BinaryBroadcastMessage, binary_broadcast_message::BinaryBroadcastMessage),
+        9 => via!(StandardAircraftPositionReport, standard_aircraft_position_report::SARPositionReport),
+        10 => via!(UtcDateInquiry, utc_date_inquiry::UtcDateInquiry),
+        11 => via!(UtcDateResponse, utc_date_response::UtcDateResponse),
+        12 => via!(AddressedSafetyRelatedMessage, addressed_safety_related::AddressedSafetyRelatedMessage),
+        13 => via!(SafetyRelatedAcknowledgment, safety_related_acknowledgment::SafetyRelatedAcknowledge),
+        14 => via!(SafetyRelatedBroadcastMessage, safety_related_broadcast::SafetyRelatedBroadcastMessage),
+        15 => via!(Interrogation, interrogation::Interrogation),
+        16 => via!(AssignmentModeCommand, assignment_mode_command::AssignmentModeCommand),
+        17 => via!(DgnssBroadcastBinaryMessage, dgnss_broadcast_binary_message::DgnssBroadcastBinaryMessage),
+        18 => via!(StandardClassBPositionReport, standard_class_b_position_report::StandardClassBPositionReport),
+        19 => via!(ExtendedClassBPositionReport, extended_class_b_position_report::ExtendedClassBPositionReport),
+        20 => via!(DataLinkManagementMessage, data_link_management_message::DataLinkManagementMessage),
+        21 => via!(AidToNavigationReport, aid_to_navigation_report::AidToNavigationReport),
+        24 => via!(StaticDataReport, static_data_report::StaticDataReport),
+        27 => via!(LongRangeAisBroadcastMessage, long_range_ais_broadcast::LongRangeAisBroadcastMessage),
+        _ => return None,
+    };
+    Some(match r {
+        Ok(Some((o, d))) => MsgCall::Ok(o, d),
+        Ok(None) => MsgCall::Err,
+        Err(p) => MsgCall::Panic(p),
+    })
+}
+
 // ---------------------------------------------------------------------------
 // report
 
